@@ -23,7 +23,8 @@ from pbt.runner import Check, Disc, Outcome
 SINGLE_NOTATIONS = ['call', '__call__', 'proxy', 'send']
 # 'batch-reuse': ONE batch object - the first `split` calls are added and sent, then the rest is added to the same object and it is sent again
 # 'batch-mixed': ONE batch object filled through two notations - the head by batch(...)(...) / notify, the tail by the subscript, which also sends it
-BATCH_NOTATIONS = ['batch-add', 'batch-call', 'batch-getitem', 'batch-proxy', 'batch-send', 'batch-reuse', 'batch-mixed']
+# 'batch-mixed-proxy': ONE batch object - the head by add / notify, the trailing run of calls through its .proxy, whose call() sends everything
+BATCH_NOTATIONS = ['batch-add', 'batch-call', 'batch-getitem', 'batch-proxy', 'batch-send', 'batch-reuse', 'batch-mixed', 'batch-mixed-proxy']
 METHODS = {
     # name -> list of (args, kwargs) shapes that bind, plus some that do not
     'echo': [([1], {}), ([1, 'x'], {}), ([], {'a': 1}), ([], {'a': None, 'b': [1]}), ([], {}), ([1, 2, 3], {}), ([], {'zz': 1})],
@@ -73,7 +74,7 @@ class C07(Check):
         "cases: call plans of 1..4 logical calls (method of the 15-method registry or an unknown one, positional list or named mapping "
         "incl. non-binding shapes, call or notification, pooled JSON values as arguments) executed through a notation {call, __call__, "
         "proxy attribute, hand-built Request + send, notify; batch add/notify, batch(...)(...), batch[...], batch.proxy, hand-built "
-        "BatchRequest + batch.send; one batch object sent, grown and sent again; one batch object filled through two notations} (each only where it can express the plan) and, for the interchangeability clause, through a second "
+        "BatchRequest + batch.send; one batch object sent, grown and sent again; one batch object filled through two notations (call + subscript; add / notify + proxy)} (each only where it can express the plan) and, for the interchangeability clause, through a second "
         "notation with identically seeded id generators; x sync/async client x sync/async dispatcher x id generator {sequential(start, "
         "step), randint, randint over a one-value range (it repeats itself), random(length, chars), uuid} x strict on/off x dispatcher max_batch_size {unset, 1, 2, 3} x scripted method behaviours (return any JSON value, raise registered "
         "typed / unregistered protocol errors, raise exceptions). Oracle: one transport call per send; the wire text is a valid request "
@@ -177,6 +178,8 @@ class C07(Check):
             return len(plan) >= 2
         if notation == 'batch-mixed':
             return len(plan) >= 2 and plan[-1]['kind'] == 'call' and not plan[-1]['kwargs']
+        if notation == 'batch-mixed-proxy':
+            return len(plan) >= 2 and plan[-1]['kind'] == 'call'
         return True
 
     @staticmethod
@@ -256,6 +259,19 @@ class C07(Check):
                           b = b.notify(p['method'], *p['args'], **p['kwargs'])
                   last = plan[-1]
                   attempt(lambda: b[(last['method'], *last['args']),])
+              elif notation == 'batch-mixed-proxy':
+                  k = len(plan) - 1
+                  while k > 1 and plan[k - 1]['kind'] == 'call':
+                      k -= 1
+                  for p in plan[:k]:
+                      if p['kind'] == 'call':
+                          b = b.add(p['method'], *p['args'], **p['kwargs'])
+                      else:
+                          b = b.notify(p['method'], *p['args'], **p['kwargs'])
+                  pr = b.proxy
+                  for p in plan[k:]:
+                      pr = getattr(pr, p['method'])(*p['args'], **p['kwargs'])
+                  attempt(lambda: pr.call())
               elif notation == 'batch-call':
                   for p in plan:
                       if p['kind'] == 'call':
@@ -437,7 +453,7 @@ class C07(Check):
         return discs
 
     def _run_and_judge(self, spec: Any, notation: str, expected: List[ref.Element]):
-        if spec['id_gen']['kind'] == 'randint-narrow' and notation in ('batch-reuse', 'batch-mixed'):
+        if spec['id_gen']['kind'] == 'randint-narrow' and notation in ('batch-reuse', 'batch-mixed', 'batch-mixed-proxy'):
             notation = 'batch-add'      # with a repeating generator the multi-step notations cannot even be built
         run = self._run_notation(spec, notation)
         if notation != 'batch-reuse':
